@@ -7,6 +7,8 @@ import vlib
 from vlib import call
 from replay_bloom import behaviours
 
+FAULT_KINDS = ("send-fault", "recv-fault")
+
 REPLY = {
     "result": lambda c: b'{"result": 7, "error": null, "id": 1}',
     "error-code": lambda c: ('{"result": null, "error": {"code": %d, "message": "boom"}, "id": 1}' % c).encode(),
@@ -23,12 +25,17 @@ def run_one(b, proxy_cls, conn_cls):
     seen = []
     last_id = None
     for i, st in enumerate(b["hist"]):
-        conn.reply = REPLY[st["kind"]](st["code"])
+        fault = st["kind"] in FAULT_KINDS
+        conn.reply = REPLY["result" if fault else st["kind"]](st["code"])
+        conn.fault = (st["kind"], i) if fault else None
         n0 = len(conn.requests)
         k, v = call(proxy.call, "getblockcount")
+        conn.fault = None
         seen.append({"k": k, "cls": type(v).__name__ if k == "exc" else ""})
         exp = st["out"]
-        if exp["k"] == "ret":
+        if exp["k"] == "any":       # transport fault: surfacing it or retrying are both allowed, only the ids are judged
+            pass
+        elif exp["k"] == "ret":
             if k != "ret":
                 return ("replay-result-reply-raised", "call %d: %s" % (i, type(v).__name__)), seen
         else:
@@ -36,8 +43,8 @@ def run_one(b, proxy_cls, conn_cls):
                 return ("replay-error-reply-yielded-result", "call %d (%s, code %d) returned %r" % (i, st["kind"], st["code"], v)), seen
             if type(v).__name__ != exp["cls"]:
                 return ("replay-error-class", "call %d (%s, code %d): spec %s, code raised %s" % (i, st["kind"], st["code"], exp["cls"], type(v).__name__)), seen
-        if len(conn.requests) > n0:
-            rid = json.loads(conn.requests[-1][2])["id"]
+        for q in conn.requests[n0:]:        # every request put on the wire by this call, failed or retried
+            rid = json.loads(q[2])["id"]
             if last_id is not None and not rid > last_id:
                 return ("replay-request-id-not-increasing", "call %d: id %r after %r" % (i, rid, last_id)), seen
             last_id = rid
